@@ -136,32 +136,19 @@ def decoder_inputs(ctx, facts, cfg):
     db = RL.get(ctx, 'dec.begin', R, cfg)
     if db is None:
         return
-    # payload of Some(..): (as_ref_mut(shards), original_count, recovery_count, &received)
-    somes = []
-
-    def visit(e, conds, env):
-        if e.get('k') == 'call' and e['f'].get('k') == 'path' and (e['f'].get('path') or '').endswith('::Some'):
-            somes.append((e, conds, dict(env)))
-    core.PathWalker(visit).walk_fn(db)
+    pls = begin_payload(facts, RL, db)
     okp = False
-    for (e, conds, env) in somes:
-        v = hcanon(e['args'][0], env)
-        if v[0] == 'tuple':
-            elems = v[1]
-            flds = []
-            for x in elems:
-                fs = set()
-                fields_of(RL.norm(x, db.path), fs)
-                flds.append(sorted(fs))
-            if flds == [['shards'], ['original_count'], ['recovery_count'], ['received']]:
-                okp = True
-            else:
-                ctx.violation(R, 'decode-begin-payload', 'decode_begin hands the decoder %s; expected (shard store, original_count, recovery_count, bitmap) and nothing arrival-dependent' % flds,
-                              site=e.get('line'), fn=db.path, cfg=cfg)
+    for (kind, rl, e) in pls:
+        got = sorted(tuple(r) for _, r in rl)
+        if got == sorted([('shards',), ('original_count',), ('recovery_count',), ('received',)]):
+            okp = True
+        else:
+            ctx.violation(R, 'decode-begin-payload', 'decode_begin hands the decoder %s; expected exactly the shard store, original_count, recovery_count and the bitmap — nothing arrival-dependent' % [r for _, r in rl],
+                          site=e.get('line'), fn=db.path, cfg=cfg)
     if okp:
         ctx.ok(R, 'decode_begin-payload@%s' % cfg, {'payload': '(shards, original_count, recovery_count, &received)'})
-    elif not somes:
-        ctx.violation(R, 'decode-begin-payload', 'no Some(..) payload found in decode_begin', site=db.span, fn=db.path, cfg=cfg)
+    elif not pls:
+        ctx.violation(R, 'decode-begin-payload', 'no Some(..) payload (tuple or struct) found in decode_begin', site=db.span, fn=db.path, cfg=cfg)
     allowed = {RL.fn.get('dec.begin'), RL.fn.get('dec.undo'), "decoder_result::DecoderResult::<'a>::new"}
     n = 0
     for p, fn in sorted(facts.fns.items()):
@@ -183,6 +170,34 @@ def decoder_inputs(ctx, facts, cfg):
             else:
                 ctx.ok(R, '%s@%s' % (p, cfg), None)
     ctx.floor(R, 2, n, 'dedicated decoders', cfg=cfg)
+
+
+def begin_payload(facts, RL, db):
+    """what decode_begin hands out on the Some path: ('tuple', [roles per position]) or ('struct', {field: roles})"""
+    somes = []
+
+    def visit(e, conds, env):
+        if e.get('k') == 'call' and e['f'].get('k') == 'path' and (e['f'].get('path') or '').endswith('::Some'):
+            somes.append((e, conds, dict(env)))
+    core.PathWalker(visit).walk_fn(db)
+    out = []
+    for (e, conds, env) in somes:
+        a = core.strip_refs(e['args'][0])
+        if a.get('k') == 'tup':
+            items = [(None, x) for x in a['xs']]
+            kind = 'tuple'
+        elif a.get('k') == 'struct':
+            items = [(f['name'], f['e']) for f in a['fields']]
+            kind = 'struct'
+        else:
+            continue
+        roles = []
+        for name, x in items:
+            fs = set()
+            fields_of(RL.norm(hcanon(x, env), db.path), fs)
+            roles.append((name, sorted(fs)))
+        out.append((kind, roles, e))
+    return out
 
 
 def fields_of(c, out):
@@ -269,17 +284,34 @@ def placement(ctx, facts, cfg):
         if bases is None:
             ctx.violation(R, 'no-config:%s' % core.short(adt), 'cannot find where %s configures the base positions of its work object' % adt, fn=p, cfg=cfg)
             continue
-        # decode: names of the counts come from the begin() tuple pattern: (work, original_count, recovery_count, received)
-        lets = core.hir_find(fn.hir['value'], lambda m: m.get('k') == 'let' and 'else' in m)
+        # decode: which local holds which part of the begin() payload
+        db = RL.get(ctx, 'dec.begin', R, cfg)
+        if db is None:
+            continue
+        pls = begin_payload(facts, RL, db)
         names = None
-        for (m, _) in lets:
-            pats = core.hir_find(m['pat'], lambda x: x.get('k') == 'tuple')
-            for (tp, _) in pats:
-                binds = [x.get('name') for x in tp['pats'] if x.get('k') == 'bind']
-                if len(binds) == 4:
-                    names = binds
+        if pls:
+            kind, rl, _ = pls[0]
+            lets = core.hir_find(fn.hir['value'], lambda m: m.get('k') == 'let' and 'init' in m and
+                                 core.hir_find(m['init'], lambda x: x.get('k') == 'mcall' and x.get('path') == db.path))
+            for (m, _) in lets:
+                role_of = {}
+                if kind == 'tuple':
+                    for (tp, _) in core.hir_find(m['pat'], lambda x: x.get('k') == 'tuple' and len(x.get('pats', [])) == len(rl)):
+                        for (name, r), pt in zip(rl, tp['pats']):
+                            if pt.get('k') == 'bind' and len(r) == 1:
+                                role_of[r[0]] = pt['name']
+                else:
+                    for (sp, _) in core.hir_find(m['pat'], lambda x: x.get('k') == 'struct' and x.get('fields')):
+                        byname = dict(rl)
+                        for fpat in sp['fields']:
+                            r = byname.get(fpat['name'])
+                            if r and len(r) == 1 and fpat['pat'].get('k') == 'bind':
+                                role_of[r[0]] = fpat['pat']['name']
+                if {'shards', 'original_count', 'recovery_count', 'received'} <= set(role_of):
+                    names = [role_of['shards'], role_of['original_count'], role_of['recovery_count'], role_of['received']]
         if not names:
-            ctx.violation(R, 'no-begin-pattern', 'unrecognised idiom: %s does not destructure (work, original_count, recovery_count, received) from the work object' % p, fn=p, cfg=cfg)
+            ctx.violation(R, 'no-begin-pattern', 'unrecognised idiom: %s does not destructure the (store, original_count, recovery_count, bitmap) payload of the work object' % p, fn=p, cfg=cfg)
             continue
         work, oc, rc, recv = names
         ren = {oc: 'O', rc: 'R'}
